@@ -80,6 +80,7 @@ type c16Node struct {
 	m     *simcluster.Member
 	other *simnet.SrvConn
 	used  int
+	data  []string
 }
 
 func c16Fresh(n int) *c16Node {
@@ -91,7 +92,27 @@ func c16Fresh(n int) *c16Node {
 		panic(err)
 	}
 	simcluster.WrapDMap("", dm).Put("k", []byte("1"), simcluster.PutOpt{})
-	return &c16Node{cl: cl, m: m, other: simnet.NewSrvConn("other-conn")}
+	node := &c16Node{cl: cl, m: m, other: simnet.NewSrvConn("other-conn")}
+	// the partitions the token alphabet can name (0 and 1) hold entries of DMap "d" on this member
+	// (a request only reaches the storage engine where there is something stored)
+	for part := uint64(0); part < 2; part++ {
+		part := part
+		if os := cl.Live()[0].DB.VerifRT().VerifTable()[part].Owners; len(os) == 0 || cl.ByName(os[len(os)-1].Name) != m {
+			continue // owned by the other member
+		}
+		node.data = append(node.data, cl.FindKey(fmt.Sprintf("p%d-", part), func(k string) bool {
+			return cl.PartID("d", k) == part && cl.Owner(cl.Live()[0], "d", k) == m
+		}))
+	}
+	node.restore()
+	return node
+}
+
+// restore puts the stored data back after a request (and the release step) may have removed it.
+func (n *c16Node) restore() {
+	for _, k := range append([]string{"k"}, n.data...) {
+		serve(n.m, n.other, "DM.PUT", "d", k, "1")
+	}
 }
 
 func serve(m *simcluster.Member, conn *simnet.SrvConn, args ...string) (reply string, panicked interface{}) {
@@ -153,6 +174,16 @@ func c16RunBatch(b c16Batch) c16Res {
 		conn := simnet.NewSrvConn("fuzz-conn")
 		t0 := sched.PeekNS()
 		reply, p := serve(node.m, conn, args...)
+		if p == nil {
+			// the same request once more: a request that was answered (with an error or not) must
+			// not have left anything behind that makes its repetition fatal
+			conn2 := simnet.NewSrvConn("fuzz-conn-2")
+			if _, p2 := serve(node.m, conn2, args...); p2 != nil {
+				res.Fails = append(res.Fails, c16Fail{Key: "panic-on-repetition/cmd=" + b.Cmd + "/" + panicSite(p2), What: fmt.Sprintf("the request was answered %q the first time; sent again the handler panicked: %v", reply, p2), Vector: args})
+				node = c16Fresh(b.N)
+				continue
+			}
+		}
 		if p != nil {
 			res.Fails = append(res.Fails, c16Fail{Key: "panic/cmd=" + b.Cmd + "/" + panicSite(p), What: fmt.Sprintf("handler panicked: %v", p), Vector: args})
 			node = c16Fresh(b.N) // a panic may have left a lock held: never touch this instance again
@@ -181,6 +212,7 @@ func c16RunBatch(b c16Batch) c16Res {
 		}
 		// release what the vector may have taken so that later vectors cannot block on it
 		serve(node.m, node.other, "DM.DEL", "d", "k", "", "abc", "0", "1", "7")
+		node.restore()
 	}
 	return res
 }
@@ -368,7 +400,7 @@ func init() {
 		c.Cov["reply_classes"] = cl
 		c.Cov["commands"] = cmds
 		c.Cov["exhaustive"] = len(rerun) == 0
-		c.Cov["rule"] = fmt.Sprintf("for each of the %d registered commands every argument vector of length 0..%d over a %d-token alphabet (keywords in both cases, valid / negative / huge / non-numeric numbers, empty and binary strings, a live DMap and key) through the real command multiplexer of a healthy member, the same vectors of length <= 2 behind 16 plausible positional prefixes (so that 'valid request + option without its value' is reached), plus upper-case names through a second member and every byte string of length <= %d over {* $ 1 2 - CR LF a SP} through redcon's reader; after each request: no panic, a reply was written, PING on the same connection and a Put/Get round trip on another connection succeed; a worker that dies or exceeds the watchdog is re-run vector by vector; non-trivial = distinct reply classes observed", len(cmds), maxLen, len(c16Tokens), frameLen)
+		c.Cov["rule"] = fmt.Sprintf("for each of the %d registered commands every argument vector of length 0..%d over a %d-token alphabet (keywords in both cases, valid / negative / huge / non-numeric numbers, empty and binary strings, a live DMap and key) through the real command multiplexer of a healthy member, the same vectors of length <= 2 behind 16 plausible positional prefixes (so that 'valid request + option without its value' is reached), plus upper-case names through a second member and every byte string of length <= %d over {* $ 1 2 - CR LF a SP} through redcon's reader; every request is sent twice in a row (the repetition must not panic either) to a member whose nameable partitions hold entries; after each request: no panic, a reply was written, PING on the same connection and a Put/Get round trip on another connection succeed; a worker that dies or exceeds the watchdog is re-run vector by vector; non-trivial = distinct reply classes observed", len(cmds), maxLen, len(c16Tokens), frameLen)
 		c.Assumef("a handler that only waits in virtual time (DM.LOCK with a deadline on a held key) is waiting, not wedged; keys are released after every request so that no request can block on an earlier one")
 	}})
 }
